@@ -221,6 +221,8 @@ pub struct StreamState {
     pub write_blocked: bool,
     /// at most this many bytes accepted per write call; 0 = unlimited
     pub max_write_chunk: usize,
+    /// "peer stops reading": accept at most this many more bytes in total, then writes return Pending (None = no limit)
+    pub write_budget: Option<usize>,
     /// everything the client wrote, in order
     pub outbox: Vec<u8>,
     pub flushes: u64,
@@ -290,6 +292,17 @@ impl StreamCtl {
             w.wake()
         }
     }
+    /// Accept at most `n` more written bytes in total, then block writes (`None` lifts the limit and wakes the writer).
+    pub fn set_write_budget(&self, n: Option<usize>) {
+        let w = {
+            let mut g = self.0.borrow_mut();
+            g.write_budget = n;
+            if matches!(n, Some(0)) { None } else { g.write_waker.take() }
+        };
+        if let Some(w) = w {
+            w.wake()
+        }
+    }
     pub fn set_max_read_chunk(&self, n: usize) {
         self.0.borrow_mut().max_read_chunk = n;
     }
@@ -350,6 +363,14 @@ impl AsyncWrite for ScriptedStream {
         let mut n = data.len();
         if g.max_write_chunk > 0 {
             n = n.min(g.max_write_chunk);
+        }
+        if let Some(b) = g.write_budget {
+            if b == 0 && n > 0 {
+                g.write_waker = Some(cx.waker().clone());
+                return Poll::Pending;
+            }
+            n = n.min(b);
+            g.write_budget = Some(b - n);
         }
         g.outbox.extend_from_slice(&data[..n]);
         Poll::Ready(Ok(n))
@@ -413,6 +434,24 @@ mod tests {
             ctl.set_eof();
             assert!(ex.poll(t));
             assert!(out.borrow().as_ref().unwrap().is_err());
+        });
+    }
+
+    #[test]
+    fn write_budget_blocks_after_k_bytes() {
+        run(|| async {
+            let (ctl, mut s) = StreamCtl::new();
+            let mut ex = Exec::new();
+            ctl.set_write_budget(Some(3));
+            let (t, out) = ex.spawn_with_output("w", async move { s.write_all(b"hello").await.map(|_| 5) });
+            assert!(!ex.poll(t), "write must block after the budget");
+            assert_eq!(ctl.take_written(), b"hel");
+            assert!(!ex.is_woken(t));
+            ctl.set_write_budget(None);
+            assert!(ex.is_woken(t));
+            assert!(ex.poll(t));
+            assert_eq!(ctl.take_written(), b"lo");
+            assert_eq!(out.borrow().as_ref().unwrap().as_ref().unwrap(), &5);
         });
     }
 
